@@ -13,7 +13,7 @@ def ballFallback : BallFallback := .allPoints
 /-- SectorRegion._makeCircumcircle -/
 def sectorCircCfg : SectorCircCfg := { thr := 1/2, k := 2, op := .divide }
 /-- circumcircle radius of CircularRegion / RectangularRegion / MeshRegion -/
-def circTable : CircTable := { circle := .radius, rect := .hypotHalves, mesh := .other }
+def circTable : CircTable := { circle := .radius, rect := .hypotHalves, mesh := .hypotHalves }
 /-- z written by each planar uniformPointInner -/
 def zTable : ZTable :=
   { rect := .regionZ, circle := .regionZ, sector := .regionZ, polygon := .regionZ, polyline := .zero }
